@@ -2,7 +2,7 @@
 from vsym.runner import Ob
 from .common import *
 from .isomsg import *
-from .c01 import family_pairs, class_mixes, GENERIC, check_codecs
+from .c01 import family_pairs, class_mixes, GENERIC, GENERIC_DEC, check_codecs
 
 PROPERTY = 'C02'
 DEBUG_LOG = ['single/dec/latin_1/bin', 'single/enc/latin_1/bin']      # obligations that are also explored with debug logging switched on
@@ -207,6 +207,33 @@ def unencodable_text(enc):
     return h
 
 
+def unconfigured_element(enc, hexbm):
+    """a message that carries a value for an element the configuration does not define cannot be laid out: whenever dumps returns, bitmap
+    and data agree (so it has to refuse, as it does with KeyError, or leave the element out of both)"""
+    def h():
+        from . import ref, packaged
+        iso = M().iso8583
+        custom = choose('cfg', [False, True])
+        cfgs = {'2': {'field_type': 'LLVAR', 'field_length': 0}, '3': {'field_type': 'FIXED', 'field_length': 6}} if custom else packaged.bit_config()
+        unconf = choose('element', [b for b in (7, 11, 64, 96, 128 - 1 - 0) if str(b) not in cfgs] + ([4, 48] if custom else []))
+        msg = {'MTI': '1240', 'DE2': '5412345678901234', 'DE3': '000000', 'DE%d' % unconf: choose('value', ['A1', 12, '0715101530'])}
+        rp = {'kind': 'unconfigured', 'args': {'msg': msg, 'enc': enc, 'hexbm': hexbm, 'cfg': cfgs if custom else 'packaged'}}
+        core.set_fallback(rp, 'C02/concretised')
+        try:
+            got = iso.dumps(dict(msg), encoding=enc, hex_bitmap=hexbm, iso_config=cfgs if custom else None)
+        except core.ControlFlow:
+            raise
+        except Exception:
+            return {'sample': {'element': unconf, 'refused': True}, 'replay': rp}
+        try:
+            d, _ = ref.ref_decode(got, cfgs, enc, hexbm)
+        except ref.RefError as e:
+            fail('dumps returned a message whose bitmap and data disagree: %s' % e, key='C02/unconfigured', replay=rp)
+        require(d.get('DE2') == msg['DE2'] and d.get('DE3') == msg['DE3'], 'configured elements changed', key='C02/unconfigured', replay=rp)
+        return {'sample': {'element': unconf, 'refused': False}, 'replay': rp}
+    return h
+
+
 DE43_FAMILY = [
     'ACME STORE\\12 HIGH ST\\MELBOURNE\\3103      VICAUS',
     'ACME STORE  \\12 HIGH ST   \\MELBOURNE   \\      3103VICAUS',
@@ -273,6 +300,13 @@ def obligations(tier):
         obs.append(Ob('unencodable-text/%s' % enc, unencodable_text(enc), 120,
                       'text values with a character the code page lacks (concrete family), alone and followed by another element: refused, or emitted '
                       'in the documented layout', _funcs))
+    dsub = [[8], [28], [8, 28], [3, 8, 28]]
+    for direction, mk_h in (('enc', encode), ('dec', decode)):
+        obs.append(Ob('generic/g-decimal/%s/cp500' % direction, mk_h(lambda: list(choose('subset', dsub)), 'cp500', False, cfgs=GENERIC_DEC), 300,
+                      'caller-supplied configuration with decimal fields (FIXED 12 / LLVAR): concrete decimal values incl. exponent forms (1E+2, 2.5E+3, 1E-3)', _funcs))
+    for enc, hexbm in (('latin_1', False), ('cp500', True)):
+        obs.append(Ob('unconfigured-element/%s/%s' % (enc, 'hex' if hexbm else 'bin'), unconfigured_element(enc, hexbm), 120,
+                      'a value for an element without configuration (packaged and a two-element caller configuration): refused, or bitmap and data agree', _funcs))
     for enc, hexbm in ((('cp500', False),) if q else (('cp500', False), ('latin_1', True))):
         obs.append(Ob('reconfigured/%s/%s' % (enc, 'hex' if hexbm else 'bin'), reconfigured(enc, hexbm), 300,
                       'a caller-supplied configuration object edited in place between two uses (the PDS carrier moves from DE48 to DE62)', _funcs))
